@@ -192,6 +192,19 @@ loop:
 			note(i, op, "model wakes the reader, code: reader not inside Read")
 			break loop
 		}
+		// pure queries; nothing else runs now (a blocked reader does not change their answer)
+		if pq := vh.Guard(func() {
+			e, d := errClass(p.Err()), 0
+			select {
+			case <-p.Done():
+				d = 1
+			default:
+			}
+			rec.addExtra("query", d, e)
+		}); pq != "" {
+			rec.addAPI(&apiRec{g: "closer", op: "query", panicked: pq})
+			break loop
+		}
 	}
 	close(reqc)
 	evs, mismatch = rec.merge(c.ID, c.Cap, stuckAt, map[string]bool{"read": inCall})
